@@ -21,6 +21,7 @@ CHECKS = {
     "C11": ("c11", "model_checking"),
     "C14": ("c14", "model_checking"),
     "C15": ("c15", "model_checking"),
+    "C18": ("c18", "model_checking"),
     "C19": ("c19", "model_checking"),
     "C20": ("c20", "model_checking"),
 }
